@@ -23,7 +23,7 @@ tie:   scenarios (prefix table + control operations in real asyncio tasks + publ
        disabled command must cause none of it (model: the default middleware stack, disable check outermost).
        COMPOSITE commands - public methods that issue further backend commands behind the caller's back: set/incr with
        tags= (-> set_add on `_tag:<tag>`, possibly a dedicated tags backend), delete_tags (-> set_pop, delete_many),
-       get_or_set, `async with cache.lock()` (-> set_lock, ping, unlock), @cache.invalidate (-> delete_match), decorators
+       get_or_set, `async with cache.lock()` (-> set_lock, the liveness probe = PING routed by the LOCK KEY, unlock), @cache.invalidate (-> delete_match), decorators
        with tags=, and the facade's on-remove callback (-> set_remove on the tags backend while a backend deletes keys) - are
        run under every single disabled command / disabled prefix (incl. `_tag:` only) / full disable; EVERY command observed
        on the recording backends must be enabled for the backend that receives it and routed by longest prefix
@@ -66,7 +66,9 @@ TRUSTED = [
     "which keys a backend reports to its on-remove callbacks: recording override of Backend._call_on_remove_callbacks) is read off "
     "the real run and handed to the model; which tags a removed key carries is asked from cashews' own registry "
     "(cache.get_key_tags: C12's business); a `set_remove` received while a backend runs another command is attributed to the "
-    "facade's on-remove callback",
+    "facade's on-remove callback; a PING with message LOCK that a backend object receives right after it refused the same caller's "
+    "set_lock is attributed to lock()'s liveness probe and judged (routing, disabled state, model comparison) by the LOCK KEY "
+    "(harness/routectl.py _entry); a plain cache.ping(msg) is judged by its message text",
 ]
 
 PARTIAL = ("the composite commands (set/incr with tags, delete_tags, get_or_set, lock, @invalidate, on-remove callback) are modelled "
@@ -89,7 +91,8 @@ PARTIAL = ("the composite commands (set/incr with tags, delete_tags, get_or_set,
            "composites: the on-remove callback asks the backend of exactly '_tag:' (lru_cache'd), which is the longest-prefix backend of "
            "'_tag:<tag>' only while no registered prefix extends '_tag:' and '_tag:' is not registered again after its first use "
            "(remove_callback_routed_by_longest_prefix states the hypothesis; such tables are not generated); what the callback does "
-           "inside a transaction is not exercised (tag registries and transactions are not combined); cache.lock is run with "
+           "inside a transaction is not exercised (tag registries and transactions are not combined); lock()'s liveness probe is recognised "
+           "as 'a PING with message LOCK right after a refused set_lock of the same caller' and judged by the lock key (D43); cache.lock is run with "
            "wait=False and with wait=True/check_interval=1 against a lock that expires (the CacheBackendInteractionError branch of "
            "lock() needs a failing backend: C19); delete_tags' loop is exercised up to its second round (100 / 101 members); "
            "the callback asks the tags backend's own control state before talking to it (defect D41, repaired as e3dff8d)")
@@ -140,6 +143,10 @@ REPLACERS = {"delete": ["get", "incr"], "delete_many": ["get_many"], "delete_mat
 # which suppresses nothing): the on-remove callback of cashews/wrapper/tags.py handed `set_remove` to the tags backend directly,
 # without asking whether SET_REMOVE (or the whole tags backend / prefix `_tag:`) is disabled for the caller.
 D38 = "D41:remove-callback-ignores-disabled-tags-backend"
+# Found by the C06 check, repaired in /repo together with this model (design id D43): lock()'s liveness probe ping(b"LOCK") was
+# routed on the facade by the TEXT "LOCK" (default-prefix backend) instead of by the lock key; since the fix the probe is
+# `_lock_probe(key)` = PING with message LOCK routed and disable-checked by the lock key's backend.
+D43 = "D43:lock-probe-routed-by-message-text"
 # no finding is ever registered from here: known findings live in /verif/known_findings.json only (chk.violation matches them)
 LOCAL_KNOWN: dict[str, str] = {}
 KNOWN_SEEN: dict[str, int] = {}
@@ -396,6 +403,10 @@ def issued_oracle(i, op, st, regs):
                                                              + (" (inside invalidate_further())" if inv else "")))
             for key in e["keys"]:
                 if longest(regs, key) != b:
+                    if e.get("probe"):
+                        bad.append((i, D43, f"{op}: the liveness probe of the lock on {key!r} (ping {e['msg']}) went to backend {b}, the "
+                                            f"lock key belongs to backend {longest(regs, key)} (registrations so far: {regs})"))
+                        continue
                     bad.append((i, f"routing-{cmd}", f"{op}: {rc.fmt_call(e)} but the longest registered prefix of {key!r} belongs to "
                                                      f"backend {longest(regs, key)} (registrations so far: {regs})"))
             if not e["keys"] and b not in registered:
@@ -414,21 +425,36 @@ def comp_spec(i, op, st, regs):
     if st.get("exc") == "HANG":
         bad.append((i, f"disabled-{name}-hangs" if any(st["disall"].values()) else f"{name}-hangs", f"{op}: never finished"))
     elif st.get("exc") == "NC":
-        # NotConfiguredError is a matter of routing alone: some key / tag key / "LOCK" the composite may use has no backend
-        cand = list(ks) + [rc.TAG_PREFIX + t for t in (op[4] if len(op) > 4 else [])] + [rc.TAG_PREFIX, "LOCK"] + \
+        # NotConfiguredError is a matter of routing alone: some key / tag key the composite may use has no backend
+        cand = list(ks) + [rc.TAG_PREFIX + t for t in (op[4] if len(op) > 4 else [])] + \
+            ([rc.TAG_PREFIX] if any(st.get("keytags", {}).values()) else []) + \
             [k for e in calls0 if e["cmd"] == "set_pop" and "ret" in e for k in (e["ret"] or [])]
         if all(longest(regs, k) is not None for k in cand):
-            bad.append((i, f"disabled-{name}-raises" if any(st["disall"].values()) else f"{name}-raises",
-                        f"{op}: raised NotConfiguredError although every key it uses has a registered prefix"))
+            refused = any(e["cmd"] == "set_lock" and e.get("ret", True) is not None and not e.get("ret", True) for e in calls0)
+            sig = D43 if (name in ("lock", "lock_wait") and refused) else \
+                f"disabled-{name}-raises" if any(st["disall"].values()) else f"{name}-raises"
+            bad.append((i, sig, f"{op}: raised NotConfiguredError although every key it uses has a registered prefix"
+                                + (" (the lock is held by somebody else: the probe has to ask the lock key's backend)" if sig == D43 else "")))
     elif st.get("exc") == "Locked":
         held = [e for e in calls0 if e["cmd"] == "set_lock" and "ret" in e and e["ret"] is not None and not e["ret"]]
         if not held or name != "lock":
             bad.append((i, f"disabled-{name}-raises", f"{op}: raised LockedError although no set_lock was refused by a backend"))
+        elif all("ping" in st["disall"].get(str(e["b"]), []) for e in held):
+            bad.append((i, f"disabled-{name}-raises", f"{op}: raised LockedError although PING is disabled for the backend that "
+                                                      f"refused the lock (no liveness answer: the block has to run)"))
     elif "exc" in st:
         if not any(e.get("exc") == st["exc"] for e in log):
             bad.append((i, f"disabled-{name}-raises" if any(st["disall"].values()) else f"{name}-raises",
                         f"{op}: raised {st['exc']} although no backend command raised it (disabled: {st['disall']})"))
     else:
+        if name == "lock":
+            # wait=False: a lock somebody else holds on a backend that answers the probe must be refused
+            for e in calls0:
+                if e["cmd"] == "set_lock" and e.get("ret", True) is not None and not e.get("ret", True) \
+                        and "ping" not in st["disall"].get(str(e["b"]), []):
+                    bad.append((i, D43, f"{op}: backend {e['b']} refused the lock (held by somebody else) and has PING enabled, but "
+                                        f"no LockedError was raised: the block ran {st.get('bodies')} time(s) without the lock"))
+                    break
         if name in ("lock", "lock_wait", "invalidate") and st.get("bodies") != 1:
             bad.append((i, f"{name}-not-executed", f"{op}: the caller's block ran {st.get('bodies')} times"))
         if st.get("full") and name == "get_or_set" and st.get("bodies") != 1:
@@ -1450,7 +1476,7 @@ def gen_conc_enum():
 
 TAG = rc.TAG_PREFIX
 # tables for the composites: with and without a dedicated tags backend, with a prefix shorter than `_tag:`, without a default
-COMP_TABLES = [[""], ["", TAG], ["", "a", TAG], ["a", TAG, ""], ["", "_t", "a"], ["", TAG, "ab", "a"]]
+COMP_TABLES = [[""], ["", TAG], ["", "a", TAG], ["a", TAG, ""], ["", "_t", "a"], ["", TAG, "ab", "a"], ["a", TAG]]
 COMP_CMDS = ["set", "incr", "get", "set_add", "set_remove", "set_pop", "delete", "delete_many", "delete_match", "set_lock",
              "unlock", "ping"]
 
@@ -1678,6 +1704,15 @@ def interesting(sc, run):
                 tags.add("remove_callback_with_set_remove_disabled")
             if st.get("exc") == "Locked":
                 tags.add("lock_refused_locked_error")
+            for e in calls0:
+                if e.get("probe"):
+                    tags.add("lock_probe_issued")
+                    if longest(regs, rc.PROBE_MSG) != e["b"]:
+                        tags.add("lock_probe_answered_by_owner_of_key_not_of_message_text"
+                                 + ("_no_default_backend" if longest(regs, rc.PROBE_MSG) is None else ""))
+            if name in ("lock", "lock_wait") and any(e["cmd"] == "set_lock" and e.get("ret", True) is not None and not e.get("ret", True)
+                                                     for e in calls0) and not any(e.get("probe") for e in calls0):
+                tags.add("lock_probe_suppressed_ping_disabled_for_owner")
             if name in ("lock", "lock_wait") and st.get("bodies") == 1 and not any(e["cmd"] == "unlock" for e in calls0):
                 tags.add("lock_block_ran_unlocked_because_disabled")
             if name == "lock_wait" and sum(1 for e in calls0 if e["cmd"] == "set_lock") >= 2:
